@@ -24,6 +24,11 @@ Tr == Data.traces
 (* C08 / C09 / C10 are the result clauses of TEnd; with Strict = FALSE the local events are removed by the harness and the     *)
 (* end record is marked hooks_missing.  Diagnostics of strict-only clauses start with "spec: ".                               *)
 Strict == IF "strict" \in DOMAIN Data THEN Data.strict ELSE TRUE
+(* The trace spec is shared by C08, C09 and C10: a result clause that belongs to another property (or to C02 / C19) is strict-only *)
+(* for the property being checked, so that a check never raises an alarm about a property it does not decide.                    *)
+Pid == IF "pid" \in DOMAIN Data THEN Data.pid ELSE "all"
+Own(S) == Strict \/ Pid \in S \/ Pid = "all"
+Tag(S) == IF Pid \in S \/ Pid = "all" THEN "" ELSE "spec: (clause of another property) "
 VARIABLES tid, l, word, p, sign, stack, ens, pc
 tvars == <<tid, l, word, p, sign, stack, ens, pc>>
 Rec == Tr[tid][l]
@@ -62,8 +67,10 @@ EnergiesOK ==
 TEnd == /\ HasRec /\ Rec.ev = "end" /\ pc = "run"
         /\ (p = Len(word) + 1) \/ (Rec.hooks_missing /\ p = 1)          \* every local problem of the program was observed
         /\ EnergiesOK
-        /\ Rec.ret_ok /\ Rec.h_unchanged /\ Rec.sparse_ok /\ Rec.types_ok /\ Rec.boundary_ok /\ Rec.dims_ok
-        /\ Rec.norm_ok /\ Rec.energy_ok /\ Rec.extra_ok
+        /\ Rec.ret_ok /\ Rec.extra_ok
+        /\ Own({"C08", "C10"}) => (Rec.h_unchanged /\ Rec.norm_ok /\ Rec.energy_ok)
+        /\ Own({"C08"}) => (Rec.boundary_ok /\ Rec.dims_ok)
+        /\ Strict => (Rec.sparse_ok /\ Rec.types_ok)                       \* C02
         /\ (Strict /\ Rec.expect_reduced) => stack = <<>>                             \* a dt / -dt pair cancels completely
         /\ pc' = "idle" /\ UNCHANGED <<word, p, sign, stack, ens>> /\ Advance
 
@@ -85,13 +92,13 @@ Diagnose ==
          ELSE IF Rec.is_dmrg /\ Len(Rec.energies) # Rec.nsteps THEN "number of reported energies differs from the number of sweeps"
          ELSE IF ~EnergiesOK THEN "spec: reported energy is not the Ritz value of the last local problem of its sweep"
          ELSE IF ~Rec.ret_ok THEN "returned value is not the norm of the input state"
-         ELSE IF ~Rec.h_unchanged THEN "Hamiltonian modified"
-         ELSE IF ~Rec.norm_ok THEN "norm of the state not conserved / not one"
-         ELSE IF ~Rec.energy_ok THEN "energy clause violated"
-         ELSE IF ~Rec.dims_ok THEN "bond dimension clause violated"
-         ELSE IF ~Rec.boundary_ok THEN "total quantum numbers changed"
-         ELSE IF ~(Rec.sparse_ok /\ Rec.types_ok) THEN "block sparsity / charge list clause violated"
          ELSE IF ~Rec.extra_ok THEN Rec.extra_what
+         ELSE IF ~Rec.h_unchanged THEN Tag({"C08", "C10"}) \o "Hamiltonian modified"
+         ELSE IF ~Rec.norm_ok THEN Tag({"C08", "C10"}) \o "norm of the state not conserved / not one"
+         ELSE IF ~Rec.energy_ok THEN Tag({"C08", "C10"}) \o "energy clause violated"
+         ELSE IF ~Rec.dims_ok THEN Tag({"C08"}) \o "bond dimension clause violated"
+         ELSE IF ~Rec.boundary_ok THEN Tag({"C08"}) \o "total quantum numbers changed"
+         ELSE IF ~(Rec.sparse_ok /\ Rec.types_ok) THEN "spec: (clause of C02) block sparsity / charge list clause violated"
          ELSE "spec: dt / -dt pair does not reduce to the empty word")
     ELSE "unexpected event"
 TReject == /\ tid <= Len(Tr)
